@@ -1,11 +1,12 @@
 #!/bin/bash
-# run every registered check on the current tree; log rc and time.  usage: run_all.sh [quick|thorough] [seed]
+# run every registered check on the current tree; log rc and time.  usage: [PROPS='C04 C05'] [LANE=a] run_all.sh [quick|thorough] [seed]
+# (different properties may run at the same time in separate lanes; never the same property twice)
 cd /verif
 tier=${1:-quick}
 seed=${2:-0}
-log=.scratch/run_all_${tier}_$seed.log
+log=.scratch/run_all_${tier}_$seed${LANE:+_$LANE}.log
 : > $log
-for p in C01 C02 C03 C04 C05 C06 C07 C08 C09 C10 C11 C12 C13 C14 C15 C16 C17 C18 C19 C20; do
+for p in ${PROPS:-C01 C02 C03 C04 C05 C06 C07 C08 C09 C10 C11 C12 C13 C14 C15 C16 C17 C18 C19 C20}; do
   s=$(date +%s)
   VERIF_SEED=$seed ./check $p --tier $tier > .scratch/out_${p}_${tier}_$seed.txt 2>&1
   rc=$?
